@@ -309,6 +309,39 @@ func (a *auditor) manifest(d string, mt string, body []byte) *finding {
 	return nil
 }
 
+// auditWritten audits every manifest that exists in the view but not in the
+// pre-state (i.e. was written by the call), whether or not the result refers to it.
+func auditWritten(v audit.View, isReg bool, pre map[string][]byte) *finding {
+	a := &auditor{v: v, isReg: isReg, res: auditResult{Manifests: map[string]string{}, Blobs: map[string]bool{}}}
+	for _, d := range v.Digests() {
+		if _, had := pre[d]; had {
+			continue
+		}
+		body, mt, ok := v.Get(d)
+		if !ok || len(body) == 0 || body[0] != '{' {
+			continue
+		}
+		var probe struct {
+			SchemaVersion *int   `json:"schemaVersion"`
+			MediaType     string `json:"mediaType"`
+		}
+		if json.Unmarshal(body, &probe) != nil || probe.SchemaVersion == nil {
+			continue // a blob
+		}
+		if h, _ := hashAs(d, body); h != d {
+			return fnd("written-manifest-digest-mismatch", "manifest written under %s hashes to %s", d, h)
+		}
+		if mt == "" {
+			mt = probe.MediaType
+		}
+		if f := a.manifest(d, mt, body); f != nil {
+			f.Clause = "written-" + f.Clause
+			return f
+		}
+	}
+	return nil
+}
+
 // auditClosure audits the image rooted at root in view v, then the manifests
 // at v whose subject is a manifest of that closure (referrers), and the
 // referrers fall-back indexes of closure manifests.
